@@ -252,6 +252,11 @@ func (c *checkCtx) minimizeSched(p *plan.SchedPlan, key string) *plan.SchedPlan 
 		for t := range cur.Tasks {
 			for j := range cur.Tasks[t] {
 				op := cur.Tasks[t][j]
+				// the outcome classes recorded by the generating process (ref_out) belong to
+				// the ops as generated: findings judged against them keep tapes and hook faults
+				if refJudged := strings.Contains(key, "sequential-process") || strings.Contains(key, "damaged-by-concurrent-run"); refJudged {
+					continue
+				}
 				if len(op.Tape) > 0 || op.FailAt > 0 {
 					q := cur.Clone()
 					q.Tasks[t][j].Tape = nil
